@@ -5,10 +5,14 @@ ENV = dict(os.environ, ASAN_OPTIONS="detect_leaks=0:abort_on_error=0:allocator_m
            UBSAN_OPTIONS="print_stacktrace=1:halt_on_error=1")
 
 
-def run_batch(exe, scripts, timeout=600, per_script_timeout=20):
-    """scripts: list of (id, [lines]).  returns {id: dict(out=[lines], crash=None|text)}"""
+def run_batch(exe, scripts, timeout=600, per_script_timeout=20, max_hangs=2):
+    """scripts: list of (id, [lines]).  returns {id: dict(out=[lines], crash=None|text)}.
+    A batch that does not finish within `timeout` counts as a hang of the script it stopped in; after a hang the remaining
+    scripts get at most 90 s, and after `max_hangs` hangs the rest is not run (one hanging input is a finding; waiting for
+    the same loop hundreds of times is not)."""
     res = {}
     pending = list(scripts)
+    hangs = 0
     while pending:
         text = "".join("--- %s\n%s\n" % (sid, "\n".join(lines)) for sid, lines in pending)
         try:
@@ -38,6 +42,11 @@ def run_batch(exe, scripts, timeout=600, per_script_timeout=20):
         res[bad]["crash"] = classify_crash(err, timed)
         idx = ids.index(bad)
         pending = pending[idx + 1:]
+        if timed:
+            hangs += 1
+            timeout = min(timeout, 90)
+            if hangs >= max_hangs:
+                break
     return res
 
 
